@@ -99,8 +99,8 @@ theorem cg_stmt_facts (lv : Nat) : ∀ (s : Stmt), cgStmt lv s = true → StmtFa
   | .brk, _ => ⟨rfl, rfl⟩
   | .switch hdr cs, h => by
     simp only [cgStmt, Bool.and_eq_true] at h
-    have f1 := cg_cases_facts lv hdr.name cs h.2
-    obtain ⟨a, b⟩ := nameOK_split hdr.name h.1.1.1.1.2
+    have f1 := cg_cases_facts lv hdr.name cs true h.2
+    obtain ⟨a, b⟩ := nameOK_split hdr.name h.1.1.1.2
     exact ⟨by simp [okStmt, b, f1.ok], by simp [wStmt, a, f1.w]⟩
   | .macroCall .., h => by simp [cgStmt] at h
 theorem cg_stmts_facts (lv : Nat) : ∀ (ss : Stmts), cgStmts lv ss = true → StmtsFacts ss
@@ -117,18 +117,16 @@ theorem cg_elifs_facts (lv : Nat) : ∀ (es : Elifs), cgElifs lv es = true → E
     have f1 := cg_stmts_facts lv body h.1.2
     have f2 := cg_elifs_facts lv r h.2
     exact ⟨by simp [okElifs, f1.ok, f2.ok], by simp [wElifs, h.1.1, f1.w, f2.w]⟩
-theorem cg_cases_facts (lv : Nat) (sw : String) : ∀ (cs : Cases), cgCases lv sw cs = true → CasesFacts cs
-  | .nil, _ => ⟨rfl, rfl⟩
-  | .cons true n ps body r, h => by
-    simp only [cgCases, Bool.and_eq_true] at h
-    have f1 := cg_stmts_facts lv body h.1.2
-    have f2 := cg_cases_facts lv sw r h.2
-    exact ⟨by simp [okCases, f1.ok, f2.ok], by simp [wCases, f1.w, f2.w]⟩
-  | .cons false n ps body r, h => by
-    simp only [cgCases, Bool.false_or, Bool.and_eq_true] at h
-    have f1 := cg_stmts_facts lv body h.1.2
-    have f2 := cg_cases_facts lv sw r h.2
-    exact ⟨by simp [okCases, f1.ok, f2.ok], by simp [wCases, f1.w, f2.w, h.1.1.1.1]⟩
+theorem cg_cases_facts (lv : Nat) (sw : String) : ∀ (cs : Cases) (nf : Bool), cgCases lv sw nf cs = true → CasesFacts cs
+  | .nil, _, _ => ⟨rfl, rfl⟩
+  | .cons d n ps body r, nf, h => by
+    obtain ⟨hnm, _, hgb, hgr⟩ := cgCases_cons h
+    have f1 := cg_stmts_facts lv body hgb
+    have f2 := cg_cases_facts lv sw r _ hgr
+    refine ⟨by simp [okCases, f1.ok, f2.ok], ?_⟩
+    rcases hnm with rfl | hnm
+    · simp [wCases, f1.w, f2.w]
+    · simp [wCases, f1.w, f2.w, hnm.1]
 end
 
 /-! ### the labels a statement defines are labels the source semantics translates -/
